@@ -243,6 +243,28 @@ Example C04_ordering_example :
   Ok (Some [9], [(2, 1); (5, 2); (7, 1)]).
 Proof. vm_compute. reflexivity. Qed.
 
+(* Features::Mask (gsub_apply_default, ScriptType::Default): the same for the list built from the mask — strictly
+   increasing lookup indices, so a lookup listed by several enabled features is applied once *)
+Theorem C04_mask_lookups_applied_in_list_order : forall t script lang mask lks,
+  lookups_for_mask t script lang mask = Ok lks ->
+  strictly_sorted (map fst lks) /\
+  (forall s ls, find_script_or_default t script = Some s -> find_langsys_or_default s lang = Some ls ->
+     forall k, In k (map fst lks) <-> contributes_mask t ls mask FEATURE_MASKS k).
+Proof. exact mask_lookups_applied_in_list_order. Qed.
+Print Assumptions C04_mask_lookups_applied_in_list_order.
+
+(* non-vacuity: clig (bit 11) and liga (bit 22) both list lookup 0 (+1 on every glyph): it runs once *)
+Example C04_mask_shared_lookup_example :
+  let clig := 1668049255 in let liga := 1818847073 in
+  let t := mkLayout (Some [(TAG_DFLT, mkScript (Some (mkLangSys [0; 1])) [])])
+                    (Some [(clig, [0]); (liga, [0; 1])])
+                    (Some [mkLookup 0 None (LSingle [SingleF1 (CovF2 [(0, 100, 0)]) 1]);
+                           mkLookup 0 None (LSingle [SingleF1 (CovF1 [6]) 10])]) in
+  lookups_for_mask t TAG_DFLT None (Z.shiftl 1 11 + Z.shiftl 1 22) = Ok [(0, liga); (1, liga)] /\
+  gsub_apply_default Debug t None TAG_DFLT None (Z.shiftl 1 11 + Z.shiftl 1 22) 100
+    [mkGlyph 5 [97] 0 (Some 97) false false false 0] = Ok [mkGlyph 16 [97] 0 None false false false 0].
+Proof. vm_compute. split; reflexivity. Qed.
+
 (* ---------------------------------------------------------------- (e) nested lookups, whole-run bookkeeping *)
 (* at every recursion level apply_subst never panics and the `changes` it reports is exactly the change of
    the glyph count (parsed tables: ChainContext format 3 has a non-empty input array) *)
@@ -268,6 +290,69 @@ Theorem C04_whole_run_bookkeeping_partial : forall m lks gd li tag alt gs,
   loop_result_ok (gsub_apply_lookup m (Some lks) gd li tag alt gs 0 (len gs)).
 Proof. exact gsub_apply_lookup_whole_run. Qed.
 Print Assumptions C04_whole_run_bookkeeping_partial.
+
+(* where a contextual lookup resumes: find_nth locates the n-th glyph after i that the lookup does not skip ... *)
+Theorem C04_find_nth_is_nth_unskipped : forall mt gd ids0 n i last, 0 <= i -> find_nth mt gd ids0 i n = Some last ->
+  exists taken, length taken = n /\
+    unskipped mt gd (drop (i + 1) ids0) = taken ++ unskipped mt gd (drop (last + 1) ids0) /\
+    (n = O -> last = i) /\ (n <> O -> i < last < len ids0 /\ match_glyph mt gd (nthZ ids0 last) = true).
+Proof. exact find_nth_spec. Qed.
+Print Assumptions C04_find_nth_is_nth_unskipped.
+
+(* ... and after a match at i the span a contextual lookup reports (and the loop advances by) reaches to the LAST
+   input glyph of the match in the run — glyphs the lookup skips between input glyphs are part of it — plus the
+   glyph-count change of the nested lookups (clamped at 0) *)
+Theorem C04_context_resume_position : forall rec gd subs mt i gs nl ch gs',
+  contextsubst rec gd subs mt i gs = Ok (Some (nl, ch), gs') ->
+  exists subst last,
+    contextsubst_would_apply gd subs mt i gs = Ok (Some subst) /\
+    find_nth mt gd (ids gs) i (Z.to_nat (gt_len (mc_input (fst subst)))) = Some last /\
+    apply_records rec mt (snd subst) gs i 0 = Ok (ch, gs') /\
+    nl = Z.max 0 (last - i + 1 + ch).
+Proof. exact contextsubst_resume_position. Qed.
+Print Assumptions C04_context_resume_position.
+
+Theorem C04_chain_context_resume_position : forall rec gd subs mt i gs nl ch gs',
+  chaincontextsubst rec gd subs mt i gs = Ok (Some (nl, ch), gs') ->
+  exists subst last,
+    chaincontextsubst_would_apply gd subs mt i gs = Ok (Some subst) /\
+    find_nth mt gd (ids gs) i (Z.to_nat (gt_len (mc_input (fst subst)))) = Some last /\
+    apply_records rec mt (snd subst) gs i 0 = Ok (ch, gs') /\
+    nl = Z.max 0 (last - i + 1 + ch).
+Proof. exact chaincontextsubst_resume_position. Qed.
+Print Assumptions C04_chain_context_resume_position.
+
+(* lookup types 5 and 6 over the whole run: the loop with its start / i / length bookkeeping is the scan ctx_scan
+   (Model/GsubSpec.v): try the rules at every unskipped position, after a match resume behind the matched span *)
+Theorem C04_context_lookup_is_scan : forall m lks gd li tag alt gs lk,
+  lookups_wf lks -> len gs < MAXLEN -> get_lookup lks li = Ok lk ->
+  let mt := from_lookup_flag (lk_flag lk) (lk_mfs lk) in
+  (forall subs, lk_body lk = LContext subs ->
+     let step := fun i g => contextsubst (apply_subst recursion_limit lks gd tag) gd subs mt i g in
+     fits step ->
+     gsub_apply_lookup m (Some lks) gd li tag alt gs 0 (len gs) =
+     (gs' <- ctx_scan (loop_fuel gs) mt gd step gs 0 ;; Ok (gs', len gs'))) /\
+  (forall subs, lk_body lk = LChain subs ->
+     let step := fun i g => chaincontextsubst (apply_subst recursion_limit lks gd tag) gd subs mt i g in
+     fits step ->
+     gsub_apply_lookup m (Some lks) gd li tag alt gs 0 (len gs) =
+     (gs' <- ctx_scan (loop_fuel gs) mt gd step gs 0 ;; Ok (gs', len gs'))).
+Proof. exact context_lookup_is_scan. Qed.
+Print Assumptions C04_context_lookup_is_scan.
+
+(* non-vacuity: GDEF mark 30, flag IgnoreMarks; subtable 0: input 20 21 with 20 -> 25; subtable 1: input 21 with
+   21 -> 22; run 20 30 21: after the match at 0 the loop resumes behind glyph 21 (position 2), so subtable 1 is not
+   offered the consumed 21: result 25 30 21 *)
+Example C04_context_skipped_inside_match_example :
+  let gd := Some (mkGdef (Some (CdF2 [(30, 30, 3)])) None None) in
+  let gl id c := mkGlyph id [c] 0 (Some c) false false false 0 in
+  let lks := [mkLookup 8 None (LContext [CtxF1 (CovF1 [20]) [Some [mkRule [21] [(0, 1)]]];
+                                         CtxF1 (CovF1 [21]) [Some [mkRule [] [(0, 2)]]]]);
+              mkLookup 0 None (LSingle [SingleF2 (CovF1 [20]) [25]]);
+              mkLookup 0 None (LSingle [SingleF2 (CovF1 [21]) [22]])] in
+  gsub_apply_lookup Debug (Some lks) gd 0 0 None [gl 20 97; gl 30 98; gl 21 99] 0 3 =
+  Ok ([mkGlyph 25 [97] 0 None false false false 0; gl 30 98; gl 21 99], 3).
+Proof. vm_compute. reflexivity. Qed.
 
 (* contextual lookups nest to depth SUBST_RECURSION_LIMIT = 2 below the top-level lookup; one level deeper the
    run fails with LimitExceeded instead of recursing *)
